@@ -278,6 +278,8 @@ class Loop(Term):
     paths: Tuple[Tuple[Tuple[Tuple[Term, bool], ...], str, Tuple[Tuple[str, Term], ...], Tuple[Term, ...]], ...] = ()
     # values, on entry to the loop, of the variables that the body assigns (accumulators)
     inits: Tuple[Tuple[str, Term], ...] = dfield(default=(), compare=False)
+    # while loops: the test as evaluated before a later iteration (over ?loopvar:x), `iter` being its value on entry
+    cond: Optional[Term] = dfield(default=None, compare=False)
 
     def __repr__(self):
         return f'loop({self.target} in {self.iter!r}: {list(self.effects)!r} raises={list(self.raises)!r})'
@@ -1179,6 +1181,12 @@ class Evaluator:
                 if isinstance(n, ast.Name):
                     body_st.env[n.id] = Sym(f'each:{n.id}')
         inner: List[Outcome] = []
+        cond_term = None
+        if isinstance(s, ast.While):
+            try:
+                cond_term = self.expr(s.test, body_st.fork(), mod, fi, depth)
+            except AnalysisError:
+                cond_term = None
         finals = self.block(s.body, [body_st], mod, fi, depth, inner)
         effs: List[Term] = []
         paths = []
@@ -1197,7 +1205,7 @@ class Evaluator:
         has_break = any(isinstance(n, ast.Break) for b in s.body for n in ast.walk(b))
         raises = tuple((o.guards, o.value) for o in inner if o.kind == 'raise')
         returns = tuple((o.guards, o.value) for o in inner if o.kind == 'return')
-        summary = Loop(tsrc, it, tuple(effs), raises, returns, tuple(paths), tuple((n, st.env[n]) for n in dict.fromkeys(assigned) if n in st.env and n not in loop_targets))
+        summary = Loop(tsrc, it, tuple(effs), raises, returns, tuple(paths), tuple((n, st.env[n]) for n in dict.fromkeys(assigned) if n in st.env and n not in loop_targets), cond_term)
         st.effects = st.effects + (summary,)
         for o in inner:
             outs.append(Outcome(o.kind, o.value, st.guards + ((Op('iterating', (it,)), True),) + o.guards, st.effects + o.effects, st.asserts + o.asserts, o.lineno))
@@ -1207,6 +1215,20 @@ class Evaluator:
         built = self._list_builder(s, st, mod, fi, depth) if isinstance(s, ast.For) else None
         if built is not None:
             st.env[built[0]] = built[1]
+        # a local list literal that the loop body grows or shrinks is no longer that literal afterwards
+        if isinstance(s, ast.While) or True:
+            mutated = []
+            for e_ in effs:
+                for x_ in walk(e_):
+                    if isinstance(x_, Call) and isinstance(x_.func, Attr) and x_.func.name in ('append', 'extend', 'insert', 'appendleft', 'extendleft', 'pop', 'popleft', 'remove', 'clear') \
+                            and isinstance(x_.func.base, TupleT) and x_.func.base.kind == 'list':
+                        mutated.append(x_.func.base)
+            if mutated and not (isinstance(it, TupleT) and any(it is m_ or it == m_ for m_ in mutated)):
+                for n_, v_ in list(st.env.items()):
+                    if built is not None and n_ == built[0]:
+                        continue
+                    if isinstance(v_, TupleT) and v_.kind == 'list' and any(v_ is m_ or v_ == m_ for m_ in mutated):
+                        st.env[n_] = Call(Ext('hplsa.grown'), (v_,))
         if s.orelse:
             if has_break:
                 a = st.fork()
@@ -2319,7 +2341,7 @@ def reduce_guards(gs: Tuple[Guard, ...]) -> Tuple[Guard, ...]:
     return tuple(out)
 
 
-def implied_literals(gs: Tuple[Guard, ...], max_atoms: int = 10) -> Tuple[Guard, ...]:
+def implied_literals(gs: Tuple[Guard, ...], max_atoms: int = 10, mark_inconsistent: bool = False) -> Tuple[Guard, ...]:
     """The atomic tests whose value is the same in every truth assignment that satisfies all the guards (a small
     truth table over the atoms of the and/or/not structure; `a is not b` is the negation of the atom `a is b`, and
     likewise != / not in).  Guards that are atoms already are kept; an inconsistent list gives ()."""
@@ -2376,8 +2398,16 @@ def implied_literals(gs: Tuple[Guard, ...], max_atoms: int = 10) -> Tuple[Guard,
                     if fixed.get(a) is not None and fixed[a] != val[a]:
                         fixed[a] = None
     if first:
-        return ()
+        return (_INCONSISTENT,) if mark_inconsistent else ()
     return tuple((a, v) for a, v in fixed.items() if v is not None)
+
+
+_INCONSISTENT = (Const('<inconsistent>'), True)
+
+
+def guards_consistent(gs: Tuple[Guard, ...], max_atoms: int = 12) -> bool:
+    """False when no truth assignment of the atomic tests satisfies all the guards (a path that cannot be taken)"""
+    return implied_literals(gs, max_atoms, mark_inconsistent=True) != (_INCONSISTENT,)
 
 
 def flat_guards(gs: Tuple[Guard, ...]) -> Tuple[Guard, ...]:
